@@ -343,6 +343,9 @@ func countTrue(b []bool) int {
 }
 
 // CheckC06 decides the quorum arithmetic property.
+// C06Extra (set by the driver) adds the behavioural half: the quorum test as the protocol applies it.
+var C06Extra func(run *harness.Run) ([]harness.Finding, map[string]interface{}, []string)
+
 func CheckC06(run *harness.Run) int {
 	c := &c06{distinct: map[string]bool{}, byRule: map[string]int{}}
 	rng := rand.New(rand.NewSource(run.Seed*7919 + 6))
@@ -434,9 +437,18 @@ func CheckC06(run *harness.Run) int {
 		"weight_vectors":      c.vectors,
 		"violations_by_rule":  c.byRule,
 	}
+	var inc []string
+	if C06Extra != nil {
+		fs, ev, i := C06Extra(run)
+		c.findings = append(c.findings, fs...)
+		inc = i
+		for k, v := range ev {
+			cov[k] = v
+		}
+	}
 	run.WriteEvidence("exploration", cov, []string{"math/big as arithmetic reference", "totals above 64 bits are outside the property (skipped)"}, len(c.findings))
 	fmt.Printf("C06 %s: vectors=%d evaluations=%d distinct=%d\n", run.Tier, c.vectors, c.evals, len(c.distinct))
-	return run.Conclude(c.findings, nil)
+	return run.Conclude(c.findings, inc)
 }
 
 // splitTotal splits T into n positive weights (shape 0: even, 1: one heavy member, 2: skewed random).
